@@ -1,18 +1,179 @@
-(* C02 — cache objects are content-addressed and immutable (work in progress: the invariants over
-   histories are added below as they are proved). *)
+(* C02 -- Cache objects are content-addressed and immutable.
+   Property theorems only: statement, [exact] of a lemma of Repo/{Proofs,Inv}.v, a [Check] pinning the
+   statement, [Example]s (the hypotheses are met by concrete non-trivial histories; witnesses of the
+   known classes by vm_compute), [Print Assumptions].
+
+   Histories are ANY lists of user actions (write, write-through, delete, touch) and xvc commands
+   (track / carry-in / recheck with all their options and any target lists) from an initialised
+   repository.  One boolean class is excluded, decided by running the model on the history:
+     K_relink h  =  some commit of h renames a workspace entry that is itself a link -- a symbolic
+                    link, or a hard link to a cache object -- into the cache.
+   (edits_visible is not a hypothesis: every user edit of the model takes a fresh stamp, and
+    Repo/Stamps.v proves that a record whose metadata equal the workspace describes its content.)
+   In that class the code really breaks the property (readonly_relink_refuted, cas_relink_refuted,
+   symlink_in_cache_refuted below replay on the binary: finding "relink" of findings.d/C02.json).
+   Immutability additionally excludes K_alias_swap (carry-in --force with content that differs from
+   the stored object only in CR/LF bytes: P2). *)
 From Coq Require Import List Bool NArith.
-From XV Require Import Base.Amap Base.Bytes Repo.Model Repo.Proofs.
+From XV Require Import Base.Amap Base.Bytes Repo.Model Repo.Proofs Repo.Inv Repo.Restore Repo.Stamps Repo.Main.
 Import ListNotations.
 
-(* the address computed for a file fits its bytes: it is the digest of the bytes or of the
-   CR/LF-stripped bytes, whatever the mode *)
+Definition K_relink (r : repo) (h : list item) : bool := mon_run relink r h.
+Definition K_relink_item (r : repo) (it : item) : bool := mon_item relink r it.
+Definition K_alias_swap (r : repo) (it : item) : bool := mon_item alias_swap r it.
+
+(* 1. I_cas: in every reachable repository every cache object's bytes fit its address: the digest in
+      the address is the (ideal) hash of the bytes or of the bytes without CR and LF *)
+Theorem cas_invariant a m t h b c :
+  K_relink (init_repo a m t) h = false ->
+  obj_read (fs (run_items (init_repo a m t) h)) b = Some c -> fits (a_digest b) c.
+Proof. exact (cas_final a m t h b c). Qed.
+
+(* the address computed for a file fits its bytes whatever the mode *)
 Theorem address_fits_content a t c : fits (digest_of a t c) c.
 Proof. exact (digest_of_fits a t c). Qed.
 
-(* identical content with the same extension tracked at several paths has a single address *)
+(* 2. every cache entry is a regular file whose inode is read-only and belongs to no other address *)
+Theorem objects_readonly_files a m t h b e :
+  K_relink (init_repo a m t) h = false ->
+  oget (fs (run_items (init_repo a m t) h)) b = Some e ->
+  exists i n, e = EFile i /\ iget (fs (run_items (init_repo a m t) h)) i = Some n /\ i_w n = false /\
+              (forall b', oget (fs (run_items (init_repo a m t) h)) b' = Some (EFile i) -> b' = b).
+Proof. exact (objects_plain_final a m t h b e). Qed.
+
+(* ... and, as long as no command panicked, its directory is not writable *)
+Theorem directories_readonly a m t h b :
+  K_relink (init_repo a m t) h = false -> panics (init_repo a m t) h = false ->
+  oget (fs (run_items (init_repo a m t) h)) b <> None ->
+  dget (fs (run_items (init_repo a m t) h)) (a_digest b) = Some false.
+Proof. exact (readonly_final a m t h b). Qed.
+
+(* 3. immutability: for every item (any command, any options, any targets) and every address present
+      before and after it, the bytes read are the same *)
+Theorem objects_immutable r it b c c' :
+  reachable_r r -> K_relink_item r it = false -> K_alias_swap r it = false ->
+  obj_read (fs r) b = Some c -> obj_read (fs (fst (do_item r it))) b = Some c' -> c = c'.
+Proof. exact (immutable_final r it b c c'). Qed.
+
+(* 4. without --force the cache only grows: every entry keeps its inode and its bytes (user actions,
+      recheck, track, carry-in): pre-existing objects are never rewritten, duplicates are not stored twice *)
+Theorem cache_monotone r it b e :
+  reachable_r r -> K_relink_item r it = false -> unforced it = true ->
+  oget (fs r) b = Some e ->
+  oget (fs (fst (do_item r it))) b = Some e /\ obj_read (fs (fst (do_item r it))) b = obj_read (fs r) b.
+Proof. exact (monotone_final r it b e). Qed.
+
+(* 5. deduplication: identical content with the same extension (and mode) has ONE address, whatever the
+      paths; two contents that share an address differ at most in CR/LF bytes *)
 Theorem dedup a t c p1 p2 :
   extension p1 = extension p2 -> cache_addr p1 (digest_of a t c) = cache_addr p2 (digest_of a t c).
 Proof. exact (dedup_same_address a t c p1 p2). Qed.
 
+Theorem one_address_same_normal_form d c1 c2 : fits d c1 -> fits d c2 -> strip_crlf c1 = strip_crlf c2.
+Proof. exact (fits_same_norm d c1 c2). Qed.
+
+(* ---- the statements are pinned ---------------------------------------------------------------------- *)
+Check cas_invariant : forall a m t h b c, K_relink (init_repo a m t) h = false ->
+  obj_read (fs (run_items (init_repo a m t) h)) b = Some c -> fits (a_digest b) c.
+Check objects_immutable : forall r it b c c', reachable_r r -> K_relink_item r it = false -> K_alias_swap r it = false ->
+  obj_read (fs r) b = Some c -> obj_read (fs (fst (do_item r it))) b = Some c' -> c = c'.
+Check cache_monotone : forall r it b e, reachable_r r -> K_relink_item r it = false -> unforced it = true ->
+  oget (fs r) b = Some e ->
+  oget (fs (fst (do_item r it))) b = Some e /\ obj_read (fs (fst (do_item r it))) b = obj_read (fs r) b.
+Check directories_readonly : forall a m t h b, K_relink (init_repo a m t) h = false -> panics (init_repo a m t) h = false ->
+  oget (fs (run_items (init_repo a m t) h)) b <> None -> dget (fs (run_items (init_repo a m t) h)) (a_digest b) = Some false.
+
+(* ---- concrete histories -------------------------------------------------------------------------------- *)
+Definition a_txt : path := [97; 46; 116; 120; 116]%N.
+Definition b_txt : path := [98; 46; 116; 120; 116]%N.
+Definition lf : bytes := [97; 10; 98; 10]%N.            (* "a\nb\n" *)
+Definition crlf : bytes := [97; 13; 10; 98; 13; 10]%N.  (* "a\r\nb\r\n" *)
+Definition junk : bytes := [106; 117; 110; 107]%N.
+Definition t0 : track_opts := {| t_method := None; t_tob := None; t_no_commit := false; t_force := false |}.
+Definition t_hard : track_opts := {| t_method := Some Hardlink; t_tob := None; t_no_commit := false; t_force := false |}.
+Definition t_sym : track_opts := {| t_method := Some Symlink; t_tob := None; t_no_commit := false; t_force := false |}.
+Definition t_bin : track_opts := {| t_method := None; t_tob := Some Binary; t_no_commit := false; t_force := false |}.
+Definition c_force_o : carry_opts := {| c_tob := None; c_force := true |}.
+Definition r0 : repo := init_repo B3 Copy Auto.
+Definition addr_text : caddr := cache_addr a_txt (digest_of B3 Text lf).
+Definition addr_bin : caddr := cache_addr a_txt (digest_of B3 Binary crlf).
+
+(* non-vacuity: a history outside the class with two objects, a duplicate, a forced carry-in, a recheck *)
+Definition h_ok : list item :=
+  [UWrite a_txt lf; UWrite b_txt lf; XTrack t0 [a_txt; b_txt];
+   UWrite a_txt junk; XCarryIn c_force_o [a_txt];
+   UDelete b_txt; XRecheck {| k_method := Some Symlink; k_force := false |} [b_txt]].
+Example cas_nonvacuous :
+  K_relink r0 h_ok = false /\ panics r0 h_ok = false /\
+  obj_read (fs (run_items r0 h_ok)) addr_text = Some lf /\
+  obj_read (fs (run_items r0 h_ok)) (cache_addr a_txt (digest_of B3 Text junk)) = Some junk /\
+  ws_read (fs (run_items r0 h_ok)) b_txt = Some lf.
+Proof. vm_compute. repeat split. Qed.
+
+(* ---- the known classes: the full statements are false of the faithful model ------------------------------ *)
+Definition C02_immutable_full : Prop := forall r it b c c', reachable_r r ->
+  obj_read (fs r) b = Some c -> obj_read (fs (fst (do_item r it))) b = Some c' -> c = c'.
+Definition C02_readonly_full : Prop := forall a m t h b e, panics (init_repo a m t) h = false ->
+  oget (fs (run_items (init_repo a m t) h)) b = Some e ->
+  exists i n, e = EFile i /\ iget (fs (run_items (init_repo a m t) h)) i = Some n /\ i_w n = false.
+Definition C02_cas_full : Prop := forall a m t h b c,
+  obj_read (fs (run_items (init_repo a m t) h)) b = Some c -> fits (a_digest b) c.
+
+(* P2 (alias): carry-in --force swaps an object for another byte string with the same text normal form *)
+Definition h_alias : list item := [UWrite a_txt lf; XTrack t0 [a_txt]; UWrite a_txt crlf].
+Example immutable_alias_refuted : ~ C02_immutable_full.
+Proof.
+  intros H.
+  assert (R : reachable_r (run_items r0 h_alias)) by (apply reachable_r_run; vm_compute; reflexivity).
+  specialize (H (run_items r0 h_alias) (XCarryIn c_force_o [a_txt]) addr_text lf crlf R).
+  assert (E : lf = crlf) by (apply H; vm_compute; reflexivity). discriminate E.
+Qed.
+Example alias_witness_in_class :
+  K_relink_item (run_items r0 h_alias) (XCarryIn c_force_o [a_txt]) = false /\
+  K_alias_swap (run_items r0 h_alias) (XCarryIn c_force_o [a_txt]) = true.
+Proof. vm_compute. split; reflexivity. Qed.
+
+(* relink, hard-link form: a.txt is a hard link to its object; touch + track --text-or-binary binary
+   renames the link to a second address: two addresses share one inode.  carry-in --force of b.txt
+   (same bytes) then makes that inode writable before unlinking the first address: the second object is
+   left WRITABLE although every command returned Ok *)
+Definition h_relink : list item :=
+  [UWrite a_txt crlf; XTrack t_hard [a_txt]; UTouch a_txt; XTrack t_bin [a_txt];
+   UWrite b_txt crlf; XTrack t0 [b_txt]; XCarryIn c_force_o [b_txt]].
+Example readonly_relink_refuted : ~ C02_readonly_full.
+Proof.
+  intros H. specialize (H B3 Copy Auto h_relink addr_bin (EFile 1%N)).
+  destruct H as (i & n & E & Hi & Hw); [vm_compute; reflexivity|vm_compute; reflexivity|].
+  injection E as <-. vm_compute in Hi. injection Hi as <-. discriminate Hw.
+Qed.
+Example relink_witness_in_class : K_relink r0 h_relink = true /\ panics r0 h_relink = false.
+Proof. vm_compute. split; reflexivity. Qed.
+
+(* ... and a later hard-link recheck + in-place edit changes the bytes of that object *)
+Definition h_relink_cas : list item :=
+  h_relink ++ [XRecheck {| k_method := Some Hardlink; k_force := false |} [a_txt]; UWriteThrough a_txt junk].
+Example cas_relink_refuted : ~ C02_cas_full.
+Proof.
+  intros H. specialize (H B3 Copy Auto h_relink_cas addr_bin junk).
+  assert (F : fits (a_digest addr_bin) junk) by (apply H; vm_compute; reflexivity).
+  destruct F as [F|F]; vm_compute in F; discriminate F.
+Qed.
+
+(* relink, symlink form: b.txt (a duplicate of a.txt) is rechecked as a symlink to the shared object,
+   then committed in binary mode: the SYMLINK is renamed into the cache *)
+Definition h_symlink : list item :=
+  [UWrite a_txt crlf; UWrite b_txt crlf; XTrack t_sym [a_txt; b_txt]; XTrack t_bin [b_txt]].
+Example symlink_in_cache_refuted : ~ C02_readonly_full.
+Proof.
+  intros H. specialize (H B3 Copy Auto h_symlink addr_bin (ELink (cache_addr a_txt (digest_of B3 Text crlf)))).
+  destruct H as (i & n & E & _); [vm_compute; reflexivity|vm_compute; reflexivity|discriminate E].
+Qed.
+
+Print Assumptions cas_invariant.
 Print Assumptions address_fits_content.
+Print Assumptions objects_readonly_files.
+Print Assumptions directories_readonly.
+Print Assumptions objects_immutable.
+Print Assumptions cache_monotone.
 Print Assumptions dedup.
+Print Assumptions one_address_same_normal_form.
